@@ -9,8 +9,8 @@ UNIT = ()
 
 class Agg:
     """struct / tuple / array / closure environment"""
-    __slots__ = ('ty', 'f')
-    def __init__(self, ty, f): self.ty = ty; self.f = f
+    __slots__ = ('ty', 'f', 'substs')
+    def __init__(self, ty, f, substs=None): self.ty = ty; self.f = f; self.substs = substs
     def __repr__(self): return '%s{%s}' % (self.ty, ', '.join(map(repr, self.f)))
 
 class Enum:
@@ -95,7 +95,7 @@ def deep_copy(v, memo=None):
     """structural clone (what derive(Clone)/std Clone do); z3 terms and immutables are shared"""
     if isinstance(v, (int, float, bool, str)) or v is UNIT or v is UNINIT or v is None or is_sym(v): return v
     if isinstance(v, Str): return v
-    if isinstance(v, Agg): return Agg(v.ty, [deep_copy(x) for x in v.f])
+    if isinstance(v, Agg): return Agg(v.ty, [deep_copy(x) for x in v.f], v.substs)
     if isinstance(v, Enum): return Enum(v.ty, v.variant, v.idx, [deep_copy(x) for x in v.f])
     if isinstance(v, RString): return RString(v.ch)
     if isinstance(v, RVec): return RVec([deep_copy(x) for x in v.items])
